@@ -248,6 +248,38 @@ def decode_tokens(data):
     return res
 
 
+def golden_observation(binp, cmd, d):
+    """normalised output of `ironplcc <cmd> f.st` (in directory d): what the golden files store"""
+    if cmd == "tokens_lsp":
+        uri = "file:///tmp/verif_w/f.st"
+        text = open(os.path.join(d, "f.st"), encoding="utf-8").read()
+        out = lsp_session(binp, [{"open": [uri, text, 1]}, {"tokens": uri}], d)
+        toks = out[1].get("tokens") if len(out) > 1 else None
+        return json.dumps(None if toks is None else decode_tokens(toks))
+    rc, so, se = run(binp, [cmd, "f.st"], d)
+    plain = ANSI.sub("", so + "\n--stderr--\n" + se)
+    plain = re.sub(r"[^ \n]*f\.st", "f.st", plain)
+    if cmd == "check":
+        # verdict, codes and positions; not the rendered snippets
+        return json.dumps({"exit": rc, "codes": codes_of(plain), "positions": re.findall(r"f\.st:(\d+):(\d+)", plain)})
+    return "exit %s\n" % rc + re.sub(r"[ \t]+", " ", plain)
+
+
+def regolden():
+    import bounded
+    binp, log = build_ironplcc()
+    n = 0
+    for cmd in ("echo", "check", "tokenize", "tokens_lsp"):
+        os.makedirs(os.path.join(VERIF, "specs", "golden", cmd), exist_ok=True)
+        for name, text in bounded.corpus():
+            with tempfile.TemporaryDirectory(prefix="verif_g_") as d:
+                open(os.path.join(d, "f.st"), "w", encoding="utf-8", newline="").write(text)
+                got = golden_observation(binp, cmd, d)
+            open(os.path.join(VERIF, "specs", "golden", cmd, name.replace("/", "__") + ".txt"), "w", encoding="utf-8").write(got)
+            n += 1
+    print("wrote %d golden files" % n)
+
+
 def run_candidate(c):
     """-> (reproduced: bool, observation: dict)"""
     binp, log = build_ironplcc()
@@ -272,7 +304,27 @@ def run_candidate(c):
         kind = c["kind"]
         obs = {}
         bad = []
-        if kind == "bounded_pair":
+        if kind == "golden":
+            # regression against the vetted baseline: the output of `ironplcc <cmd>` for every program of the corpus must be what
+            # it was on the tree whose units verified (specs/golden/<cmd>/<name>.txt, written by `tools/witness.py --regolden`)
+            import bounded
+            n_cmp = 0
+            for name, text in bounded.corpus():
+                gp = os.path.join(VERIF, "specs", "golden", c["cmd"], name.replace("/", "__") + ".txt")
+                if not os.path.exists(gp):
+                    continue
+                open(os.path.join(d, "f.st"), "w", encoding="utf-8", newline="").write(text)
+                got = golden_observation(binp, c["cmd"], d)
+                n_cmp += 1
+                want = open(gp, encoding="utf-8").read()
+                if got != want:
+                    first = next((i for i, (x, y) in enumerate(zip(got, want)) if x != y), min(len(got), len(want)))
+                    bad.append("%s of %s differs from the baseline at character %d: got ...%s... expected ...%s..." % (
+                        c["cmd"], name, first, got[max(0, first - 40):first + 60].replace("\n", " "), want[max(0, first - 40):first + 60].replace("\n", " ")))
+                    if len(bad) >= 3:
+                        break
+            obs = {"programs_compared": n_cmp}
+        elif kind == "bounded_pair":
             import bounded
             bad, obs = bounded.replay_pair(binp, c["original_text"], c["transformed_text"], c.get("fold_case", False))
         elif kind == "cli":
@@ -539,6 +591,9 @@ def replay_file(path):
     return 0
 
 
+if __name__ == "__main__" and "--regolden" in sys.argv:
+    regolden()
+    sys.exit(0)
 if __name__ == "__main__":
     # self-test: run every candidate on the current tree and report those that 'reproduce' (must be none on a good tree)
     bad = 0
